@@ -7,7 +7,8 @@
      same_prefix          (one __prefix__ for all classes; otherwise a '*'-style hop after the first
                            is named with the assigning object's prefix when writing)
      no_deferring_locals  (no deferring attribute on the chain holds a local value; otherwise a
-                           DelegatesTo assignment is stored past it). *)
+                           DelegatesTo assignment is stored past it);
+   and listenable / all_listenable exclude the third one (del of a listenable=False attribute). *)
 From Coq Require Import ZArith List Bool Arith.
 From TV Require Import Common.Harness C11.Model C11.Law C11.Proofs C11.Invariants C11.Chain.
 Import ListNotations.
@@ -113,7 +114,7 @@ Print Assumptions prototyped_local_independent.
 
 Theorem delete_restores_link :
   forall st o n d r p t tr old,
-  (o < length (objs st))%nat ->
+  (o < length (objs st))%nat -> listenable st o n = true ->
   find_trait st o n = Some (Deleg d r false) ->
   walk 100 st o o d r n = Ok (p, t, tr) ->
   dict_get st o n = Some old ->
@@ -138,7 +139,7 @@ Print Assumptions invalid_assignment_rejected_by_target_trait.
    the attached forwarders that currently point at the changed attribute, with the new value *)
 Theorem forward_iff_linked :
   forall cs os ops,
-  wf_classes cs ->
+  wf_classes cs -> all_listenable (init_state cs os) ->
   (forall o n, deferring (init_state cs os) o n -> dict_get (init_state cs os) o n = None) ->
   Forall (fun o => match o with Set_ x _ _ | Del x _ => (x < length os)%nat end) ops ->
   let st := final (init_state cs os) ops in
@@ -150,9 +151,9 @@ Theorem forward_iff_linked :
   (forall f x y w, In y (ltab st) -> depends_on st y x = true ->
      In (fst y, snd y, w) (change_at (S (S f)) st x w)).
 Proof.
-  intros cs os ops Hwf Hnl Hr st.
+  intros cs os ops Hwf Hal Hnl Hr st.
   assert (inv st) as [Hm Hl].
-  { apply history_inv; [apply init_inv; [constructor|exact Hwf|exact Hnl]|exact Hr]. }
+  { apply history_inv; [apply init_inv; [constructor|exact Hwf|exact Hal|exact Hnl]|exact Hal|exact Hr]. }
   split; [exact Hm|]. split; [exact Hl|]. split.
   - intros f x w e Hin. split; [exact (notified_only_if_attached st f x w e Hin)|exact (notified_with_new_value st f x w e Hin)].
   - intros f x y w Hy Hd. exact (attached_dependent_notified st f x y w Hy Hd).
@@ -163,9 +164,9 @@ Print Assumptions forward_iff_linked.
 Definition X := [0%nat]. Definition Y := [1%nat]. Definition A := [2%nat]. Definition B := [3%nat].
 Definition R := [4%nat]. Definition PARENT := [20%nat].
 Definition par : cls := mkC [12%nat] [(PARENT, Link); (X, Normal KInt (VInt 1)); ([12%nat; 3%nat], Normal KInt (VInt 5));
-                                       ([11%nat; 3%nat], Normal KRange (VInt 6)); (R, Normal KRange (VInt 7))].
-Definition mid : cls := mkC [12%nat] [(PARENT, Link); (B, Deleg PARENT RClass true); (R, Deleg PARENT RSame false)].
-Definition top : cls := mkC [11%nat] [(PARENT, Link); (A, Deleg PARENT (RExplicit B) true); (Y, Deleg PARENT (RExplicit R) true)].
+                                       ([11%nat; 3%nat], Normal KRange (VInt 6)); (R, Normal KRange (VInt 7))] [].
+Definition mid : cls := mkC [12%nat] [(PARENT, Link); (B, Deleg PARENT RClass true); (R, Deleg PARENT RSame false)] [].
+Definition top : cls := mkC [11%nat] [(PARENT, Link); (A, Deleg PARENT (RExplicit B) true); (Y, Deleg PARENT (RExplicit R) true)] [].
 Definition pool : list obj := [mkO 0 []; mkO 1 [(PARENT, VObj 0%nat)]; mkO 2 [(PARENT, VObj 1%nat)]].
 Definition st0 := init_state [par; mid; top] pool.
 
@@ -199,11 +200,27 @@ Theorem through_local_witness :
 Proof. vm_compute. repeat split; reflexivity. Qed.
 Print Assumptions through_local_witness.
 
+(* Third finding: deleting the local value of a PrototypedFrom(..., listenable=False) attribute removes
+   the value and notifies, then raises KeyError (no __listener_traits__ entry); without a local value
+   it raises as well.  [delete_restores_link] carries the hypothesis [listenable st o n = true]. *)
+Definition child_nl : cls := mkC [11%nat] [(PARENT, Link); (X, Deleg PARENT RSame false)] [X].
+Definition st_nl := init_state [par; child_nl] [mkO 0 []; mkO 1 [(PARENT, VObj 0%nat)]].
+Theorem del_not_listenable_refuted :
+  listenable st_nl 1%nat X = false /\
+  let st1 := fst (fst (set_attr st_nl 1%nat X (VInt 9))) in
+  rd st1 1%nat X = Ok (VInt 9) /\
+  snd (fst (del_attr st1 1%nat X)) = Raised KeyError /\
+  rd (fst (fst (del_attr st1 1%nat X))) 1%nat X = Ok (VInt 1) /\
+  snd (del_attr st1 1%nat X) = [(1%nat, X, VInt 1)] /\
+  snd (fst (del_attr st_nl 1%nat X)) = Raised KeyError.
+Proof. vm_compute. repeat split; reflexivity. Qed.
+Print Assumptions del_not_listenable_refuted.
+
 (* Non-vacuity: a pool meeting all hypotheses of the theorems above (chain of two deferrals, the '*'
    style included), with a history that stores through the chain, breaks and restores a link, is
    rejected by the target's trait, and forwards notifications up the chain. *)
-Definition mid' : cls := mkC [12%nat] [(PARENT, Link); (B, Deleg PARENT RClass true); (R, Deleg PARENT RSame false)].
-Definition top' : cls := mkC [12%nat] [(PARENT, Link); (A, Deleg PARENT (RExplicit B) true); (Y, Deleg PARENT (RExplicit R) false)].
+Definition mid' : cls := mkC [12%nat] [(PARENT, Link); (B, Deleg PARENT RClass true); (R, Deleg PARENT RSame false)] [].
+Definition top' : cls := mkC [12%nat] [(PARENT, Link); (A, Deleg PARENT (RExplicit B) true); (Y, Deleg PARENT (RExplicit R) false)] [].
 Definition st0' := init_state [par; mid'; top'] pool.
 Example history_nontrivial :
   let h := [Set_ 2 A (VInt 44); Set_ 2 Y (VInt 20); Set_ 0 R (VInt 9); Del 2 Y; Set_ 0 R (VInt 10);
